@@ -37,6 +37,7 @@ type SlotCase struct {
 	Method   int64      `json:"method"`    // zRPC: method id of the call
 	ParentNs *int64     `json:"parent_ns"` // caller's deadline, offset from the start
 	Own      bool       `json:"own"`       // the work sees the wrapper's derived context (false for fx)
+	PShape   string     `json:"pshape"`    // shape of the caller's context (ctxshape.go)
 }
 
 type SlotOut struct {
@@ -89,13 +90,8 @@ func runSlot(c SlotCase, invoke slotInvoke) (out SlotOut) {
 	var t1 time.Time
 
 	tA := time.Now()
-	parent := context.Background()
-	var cancelDl context.CancelFunc = func() {}
-	if c.ParentNs != nil {
-		parent, cancelDl = context.WithDeadline(parent, tA.Add(time.Duration(*c.ParentNs)))
-	}
-	defer cancelDl()
-	parent, cancelParent := context.WithCancel(parent)
+	parent, cancelParent, releaseParent := mkParent(c.PShape, tA, c.ParentNs)
+	defer releaseParent()
 	defer cancelParent()
 
 	pre := c.D.Mode == "pre"
@@ -358,6 +354,7 @@ type SlotSeqCall struct {
 	Bail     [2]int64 `json:"bail"`
 	Fin      []any    `json:"fin"`
 	ParentNs *int64   `json:"parent_ns"` // caller's deadline, offset from the call's start
+	PShape   string   `json:"pshape"`    // shape of the caller's context (ctxshape.go)
 }
 
 type SlotSeqCase struct {
@@ -483,11 +480,9 @@ func runSlotSeq(c SlotSeqCase, invoke slotSeqInvoke) (out SlotSeqOut) {
 	}
 	start := func(i int, q *slotSeqCall) bool {
 		q.tA = time.Now()
-		parent := context.Background()
-		if q.in.ParentNs != nil {
-			parent, q.cancelDl = context.WithDeadline(parent, q.tA.Add(time.Duration(*q.in.ParentNs)))
-		}
-		q.parent, q.cancel = context.WithCancel(parent)
+		var cancelShape, releaseShape func()
+		q.parent, cancelShape, releaseShape = mkParent(q.in.PShape, q.tA, q.in.ParentNs)
+		q.cancel, q.cancelDl = context.CancelFunc(cancelShape), context.CancelFunc(releaseShape)
 		work := func(ctx context.Context) (int64, int64) {
 			q.t1 = time.Now()
 			q.dlSeen, q.hasDl = ctx.Deadline()
